@@ -276,6 +276,7 @@ MUST_FIRE += [
     ("m104", ["C10", "C12"], ["S1"], rep1(S + "tomography.py", "expectation_value * (1 if z_pauli.phase == 0 else -1)", "expectation_value // (1 if z_pauli.phase == 0 else -1)"), "estimate floor-divided by the sign instead of multiplied"),
     ("m105", ["C10", "C12"], ["S1"], rep1(S + "tomography.py", "            assert z_pauli.phase == 2 or z_pauli.phase == 0", "            assert z_pauli.phase == 2 or z_pauli.phase != 0"), "phase assertion rejects the + sign"),
     ("m106", ["C10"], ["W3"], rep1(S + "tomography.py", "            expectation_values.update(stabilizer_fitter.expectation_values(full_hilbert_space=full_hilbert_space))", "            stabilizer_fitter.expectation_values(full_hilbert_space=full_hilbert_space)"), "per-circuit expectation values computed but never merged"),
+    ("m107", ["C14"], ["K13"], rep1(S + "stabilizer.py", "            ZX, ZZ = data[0], data[1]", "            ZX, ZZ = data[1], data[0]"), "matrix form: X and Z parts exchanged"),
     ("m95", ["C19"], ["K12"], rep1(S + "graph.py", "    def compress(self) -> int:", "    def compress(self) -> int:\n        if getattr(self, \"_id\", None) is not None:\n            return self._id\n        self._id = self._compress()\n        return self._id\n\n    def _compress(self) -> int:"), "graph id remembered by the object and never invalidated"),
     ("m72", ["C13"], ["A3"], rep1(S + "circuit_lookup.py", "result.circuits = [circuit.copy() for circuit in self.circuits]", "result.circuits = list(self.circuits)"), "fresh list of the cached circuits"),
 ]
